@@ -193,6 +193,33 @@ def judge(ctx, tspec, gspecs, values, fill, dtype, all_touched_check=True):
             if not _eqnan(got, want).all():
                 ctx.violate("box_bins", "box_bins", observed={"differs_at": np.argwhere(~_eqnan(got, want))[:4].tolist()},
                             expected={"time_bins": [i0, i1], "freq_bins": [j0, j1]}, spec=spec)
+    # the same objects again: nothing remembered from the first call may matter, also not after an in-place edit
+    if ctx.evaluations % 3 == 0 and gs:
+        try:
+            again = O.rasterize(gs, arr, **kw)
+            if names:
+                again = again.rename({names[0]: "time", names[1]: "frequency"})
+            ctx.mon("rasterize.repeat")
+            if not _eqnan(again.transpose("time", "frequency").data.astype(float), got).all():
+                ctx.violate("repeat_call_differs", "repeat_call_differs", observed="second call on the same objects differs", spec=spec)
+            k = ctx.rng.randrange(len(gs))
+            if gspecs[k]["type"] in geoms.AREAL:
+                geoms.edit_in_place(gs[k], ctx.rng)
+                gspecs2 = list(gspecs)
+                gspecs2[k] = geoms.to_spec(gs[k])
+                res3 = O.rasterize(gs, arr, **kw)
+                if names:
+                    res3 = res3.rename({names[0]: "time", names[1]: "frequency"})
+                got3 = res3.transpose("time", "frequency").data.astype(float)
+                exp3, known3 = expected_raster(gspecs2, [cast(v) for v in vals_list], t, f, fillv)
+                bad3 = known3 & ~_eqnan(got3, exp3)
+                if bad3.any():
+                    i, j = (int(x) for x in np.argwhere(bad3)[0])
+                    ctx.violate("cell_centre_rule", "cell_centre_rule:after_in_place_edit", observed={"cell": [i, j], "value": float(got3[i, j])}, expected=float(exp3[i, j]),
+                                spec=dict(spec, edited={"index": k, "to": gspecs2[k]}))
+                gs[k] = geoms.build(gspecs[k], how="dict")
+        except Exception as e:
+            ctx.violate_exc("raises", f"raises_on_repeat:{type(e).__name__}", e, spec=spec)
     # all_touched only ever adds cells
     if all_touched_check:
         try:
